@@ -690,7 +690,7 @@ func main() {
 		},
 		WorkerEnv: []string{"GOMAXPROCS=1", "GOGC=200"},
 		Build: func(tier string) (kit.Space, string) {
-			bAll := []uint8{0b010101, 0b101110, 0b111111, 0b111000, 0}
+			bAll := []uint8{0b010101, 0b101110, 0, 0b111111, 0b111000} // 0 = token absent
 			cAll := []uint8{0b001100, 0b100001, 0}
 			var specs []caseSpec
 			gen := func(depth, nb, nc, maxQueryDepth int) {
@@ -721,10 +721,10 @@ func main() {
 				gen(4, 3, 2, 2)
 				n4 := len(specs)
 				gen(5, 1, 1, 1)
-				parts = fmt.Sprintf("part A: all query trees, prefix depth 4, x:b over 3 options, y:c over 2 options (%d (query, contents) pairs); part B: query trees of depth <= 1, prefix depth 5, x:b and y:c fixed at their first option (%d pairs)", n4, len(specs)-n4)
+				parts = fmt.Sprintf("part A: all query trees, prefix depth 4, x:b over 3 options (one of them: token absent), y:c over 2 options (%d (query, contents) pairs); part B: query trees of depth <= 1, prefix depth 5, x:b and y:c fixed at their first option (%d pairs)", n4, len(specs)-n4)
 			} else {
-				gen(3, 2, 2, 2)
-				parts = fmt.Sprintf("prefix depth 3, x:b over 2 options, y:c over 2 options (%d (query, contents) pairs)", len(specs))
+				gen(3, 2, 1, 2)
+				parts = fmt.Sprintf("prefix depth 3, x:b over 2 options, y:c fixed (%d (query, contents) pairs)", len(specs))
 			}
 			calls := []call{{}}
 			for _, k := range advanceKeys() {
